@@ -178,6 +178,15 @@ def check_literals(ctx: Ctx, prop_rule: str, env: EnvA, sl, root, lits, what: st
                                              "; ".join((f"`{k}` enters with sign(s) {v}, the constraint needs {sorted(exp[k])}" if exp[k] else f"`{k}` is not part of the constraint but enters its inequality with sign(s) {v}") for k, v in wrong.items()) +
                                              " -- a term of the inequality was flipped / a flag is used with the wrong polarity, so the constraint admits infeasible or hides feasible actions"),
                    construct=f"{sl.fi.qualname}:{lit.name}:term-sign:" + ",".join(sorted(wrong)))
+        if lit.kind == "cmp" and leaf.cmp() is not None:
+            # the two sides are compared as real numbers: a side that is truncated to an integer (or cast to the dtype of
+            # integer instance data) moves by up to one unit -- a vehicle arriving 0.9 after the deadline is `in time`
+            cut = truncations(leaf.node)
+            tid = "C01.z" if direction == "looser" else "C05.i"
+            ctx.ob(tid, inst + ":compared-untruncated", not cut, sl.where,
+                   f"{show_leaf(leaf)}: " + ("no operand is truncated" if not cut else
+                                             f"operand {vg.show(cut[0], 3)[:100]} is truncated / cast to another tensor's dtype before the comparison"),
+                   construct=f"{sl.fi.qualname}:{lit.name}:truncated-operand")
         if lit.kind == "cmp" and lit.strict is not None:
             # a literal may occur several times; every occurrence in required position counts
             worst, why = "equal", ""
@@ -192,6 +201,50 @@ def check_literals(ctx: Ctx, prop_rule: str, env: EnvA, sl, root, lits, what: st
                    construct=f"{sl.fi.qualname}:{lit.name}:{direction}")
     if direction == "looser":
         connective_matrix(ctx, id_presence, env, sl, lits, m, what)
+
+
+TRUNC_METHS = {"int", "long", "short", "floor", "trunc", "round", "ceil", "floor_", "trunc_", "round_", "floor_divide"}
+TRUNC_FUNCS = {"torch.floor", "torch.trunc", "torch.round", "torch.ceil", "torch.floor_divide"}
+
+
+def truncations(node):
+    """arithmetic sub-expressions of a comparison that pass through an integer truncation: x.int() / .long() / floor / round,
+    `x // y`, x.to(torch.int*), and x.to(y.dtype) / x.type_as(y) where y is instance data (whose dtype the generator chooses)"""
+    out = []
+    for n in vg.walk(node):
+        if not isinstance(n, vg.S):
+            continue
+        def dep(x):
+            if not (isinstance(x, vg.S) and vg.cells_of(x)):
+                return False
+            y = nf.strip(x, True)
+            if nf._cmp_raw(y) is not None or y.op in ("&", "|", "not", "inv", "and", "or", "^") or (y.op == "meth" and y.args[1] in ("any", "all", "bool", "isin", "logical_and", "logical_or", "logical_not")):
+                return False            # an indicator: 0 / 1 either way
+            try:
+                from ..bounds import Prover
+                if Prover().integral(x):
+                    return False        # already integer-valued
+            except Exception:
+                pass
+            return True
+        if n.op == "meth" and n.args[1] in TRUNC_METHS and dep(n.args[0]):
+            out.append(n)
+        elif nf._fn(n) in TRUNC_FUNCS and len(n.args) > 1 and dep(n.args[1]):
+            out.append(n)
+        elif n.op == "//" and dep(n.args[0]):
+            out.append(n)
+        elif n.op == "meth" and n.args[1] in ("to", "type") and dep(n.args[0]):
+            for a in n.args[2:]:
+                a = a.args[1] if isinstance(a, vg.S) and a.op == "kw" else a
+                if not isinstance(a, vg.S):
+                    continue
+                if a.op in ("ext", "global") and isinstance(a.args[0], str) and any(t in a.args[0] for t in ("int", "long", "short", "uint8")):
+                    out.append(n)
+                if a.op == "attr" and a.args[1] == "dtype" and isinstance(a.args[0], vg.S) and vg.cells_of(a.args[0]) and nf.strip(a.args[0]) is not nf.strip(n.args[0]):
+                    out.append(n)
+        elif n.op == "meth" and n.args[1] == "type_as" and dep(n.args[0]) and len(n.args) > 2 and isinstance(n.args[2], vg.S) and vg.cells_of(n.args[2]):
+            out.append(n)
+    return out
 
 
 # bounds stored with a documented margin: (env, cell) -> reason
@@ -687,6 +740,10 @@ def rule_n(ctx: Ctx, env: EnvA):
     ctx.ob("C01.n", "MDCPDPEnv._step:current_depot", okd, sl.where, whyd, construct="MDCPDPEnv._step:current-depot")
 
 
+class CutThrough(Exception):
+    pass
+
+
 class _ColEval:
     """Three-valued value of a boolean mask at ONE column class, followed through column-slice stores, slice reads and
     scatter / gather on a designated index (the current depot).  Columns are split at symbolic boundaries b1 < b2 (number of
@@ -710,8 +767,23 @@ class _ColEval:
         p = nf.poly(x)
         if p == self.b1:
             return 1
-        if any(a.op == "//" for a in p.atoms()):
-            return 2
+        # b2 = b1 + (N - b1) // 2 with N the number of rows of `locs` (depots, pickups, deliveries): the first delivery column
+        rest = p - self.b1
+        if len(rest.terms) == 1:
+            (mono, coef), = rest.terms.items()
+            if coef == 1 and len(mono) == 1 and mono[0][1] == 1:
+                a = nf.Poly.ATOMS[mono[0][0]]
+                if a.op == "//" and vg.is_const(a.args[1], 2):
+                    num = nf.poly(a.args[0]) + self.b1
+                    if len(num.terms) == 1:
+                        (m2, c2), = num.terms.items()
+                        if c2 == 1 and len(m2) == 1 and m2[0][1] == 1:
+                            d = nf.dim_of(nf.Poly.ATOMS[m2[0][0]])
+                            if d is not None and nf.strip(d[0]).op == "cell0" and nf.strip(d[0]).args[1] == "locs" and d[1] in (-2, 1):
+                                return 2
+        if any(a.op == "//" for a in p.atoms()) or (p - self.b1).is_const():
+            raise CutThrough(f"column boundary {vg.show(x, 4)} is not one of the class boundaries (0 | number of depots | first delivery | end): "
+                             "the slice cuts through a column class, so some columns of the class are treated differently from the rest")
         raise AnalysisError(f"MDCPDP mask: column boundary {vg.show(x, 3)} not understood")
 
     def _covers(self, idx, cls):
@@ -894,6 +966,13 @@ def mdcpdp_mask_classes(ctx: Ctx, env: EnvA, direction: str = "looser"):
     }
     names = "atbcklD".lower()
     names = ["a", "t", "b", "c", "k", "l", "d"]
+    try:
+        for cls in REF:
+            _ColEval(b1, cur_ids, make_assume(dict.fromkeys(names, False))).ev(root, cls)
+    except CutThrough as e:
+        rid = "C01.p" if direction == "looser" else "C05.e"
+        ctx.ob(rid, "MDCPDPEnv.mask:column-classes-uniform", False, sl.where, str(e), construct="MDCPDPEnv._step:mask-class:cut-through")
+        return
     for cls, ref in REF.items():
         bad, undec, unk = [], 0, []
         for bits in itertools.product([False, True], repeat=len(names)):
@@ -1107,6 +1186,7 @@ def run(ctx: Ctx):
     }
     if min(len(v) for v in registries.values()) < 10:
         raise AnalysisError("embedding registries not found")
+    torchrl_step_on_a_copy(ctx)
     for cname, (path, family) in T.ENVS.items():
         env = EnvA(ctx.repo, path, cname)
         rule_a(ctx, env, family)
@@ -1137,6 +1217,41 @@ def run(ctx: Ctx):
                 s_ = env.slot(nm)
                 ctx.fn(s_.fi)
                 units.obligations(ctx, "C01.u", f"{cname}.{nm}", s_.it, s_.fr, s_.where, floor)
+
+
+def torchrl_step_on_a_copy(ctx: Ctx):
+    """C01.r in TorchRL mode `step` must leave the state it was given untouched (TorchRL writes the successor under "next"
+    and callers keep using the input, e.g. to step it again).  Several `_step` implementations update state tensors in place
+    (MDCPDP carry / length / arrival records, SVRP technician), so `_torchrl_step` has to hand `_step` a DEEP copy: a shallow
+    `clone(recurse=False)` / `copy()` shares the tensors and the caller's load and clock change behind its back."""
+    import ast
+    cls = ctx.repo.get_class("rl4co/envs/common/base.py", "RL4COEnvBase")
+    fi = cls.methods.get("_torchrl_step")
+    if fi is None:
+        raise AnalysisError("RL4COEnvBase._torchrl_step not found")
+    ctx.fn(fi)
+    p0 = fi.params()[1] if len(fi.params()) > 1 else None
+    calls = [c for c in ast.walk(fi.node) if isinstance(c, ast.Call) and isinstance(c.func, ast.Attribute) and c.func.attr == "_step"
+             and isinstance(c.func.value, ast.Name) and c.func.value.id == "self"]
+    if len(calls) != 1 or not calls[0].args:
+        raise AnalysisError("RL4COEnvBase._torchrl_step: expected one self._step(<state>) call")
+    arg = calls[0].args[0]
+    # resolve a local name to its single assignment
+    if isinstance(arg, ast.Name) and arg.id != p0:
+        defs = [st.value for st in ast.walk(fi.node) if isinstance(st, ast.Assign) and any(isinstance(t, ast.Name) and t.id == arg.id for t in st.targets)]
+        if len(defs) == 1:
+            arg = defs[0]
+    deep = False
+    why = ast.unparse(arg)[:60]
+    if isinstance(arg, ast.Call) and isinstance(arg.func, ast.Attribute) and arg.func.attr == "clone":
+        kw = {k.arg: k.value for k in arg.keywords}
+        rec = kw.get("recurse", arg.args[0] if arg.args else None)
+        deep = rec is None or (isinstance(rec, ast.Constant) and rec.value is True)
+    elif isinstance(arg, ast.Call) and ast.unparse(arg.func) in ("copy.deepcopy", "deepcopy"):
+        deep = True
+    ctx.ob("C01.r", "RL4COEnvBase._torchrl_step:_step-works-on-a-deep-copy", deep, fi.loc,
+           f"self._step({why}): deep copy of the caller's state -- {deep}" + ("" if deep else "; in-place state updates of _step (MDCPDP, SVRP, FFSP ...) reach the caller's tensors"),
+           construct="RL4COEnvBase._torchrl_step:state-copy")
 
 
 def run_thorough(ctx: Ctx):
